@@ -112,6 +112,16 @@ def run(ck: Check) -> int:
                 w = WM.WcMatch(case.root, fpt, xpt, case.flags)
                 got = w.match()
                 skipped = w.get_skipped()
+                rerun = None
+                if len(search_rows) % 3 == 0:
+                    # the same object used again: match, imatch, match — results and the counter are per run (added after seeded
+                    # change C14e: match() bypassed the reset of the skipped counter)
+                    runs = []
+                    for how in ('match', 'imatch', 'match'):
+                        r_ = w.match() if how == 'match' else list(w.imatch())
+                        runs.append((how, r_ == got, w.get_skipped()))
+                    bad = [(how, same, sk) for how, same, sk in runs if not same or sk != skipped]
+                    rerun = bad[0] if bad else None
                 got_i = list(WM.WcMatch(case.root, fpt, xpt, case.flags).imatch())
         except common.CallTimeout:
             continue
@@ -122,7 +132,7 @@ def run(ck: Check) -> int:
         fsel = (lambda rel, n: True) if not case.fpat.alts else (lambda rel, n: dec.file(case.fpat, fpn, rel, n))
         dex = (lambda rel, n: False) if not case.xpat.alts else (lambda rel, n: dec.excl(case.xpat, dpn, rel, n))
         exp, visited = K.spec_walk(case.root, WM, case.flags, fsel, dex)
-        search_rows.append((case.describe(), case.spec_line(), got_rel, skipped, got_i == got, exp, visited))
+        search_rows.append((case.describe(), case.spec_line(), got_rel, skipped, got_i == got, exp, visited, rerun))
         if len(got_rel) > 0:
             hist['nonempty-result'] = hist.get('nonempty-result', 0) + 1
         if skipped > 0:
@@ -150,7 +160,7 @@ def run(ck: Check) -> int:
                    '(a) in Python from os.scandir + fnmatch/globmatch decisions and (b) by the Lean specification '
                    '`specResults`/`specSkipped`; results compared as exact sequences')
         lean = drv.ask_many([sl for _d, sl, *_ in search_rows]) if drv is not None else [None] * len(search_rows)
-        for (desc, _sl, got_rel, skipped, same_i, exp, visited), lspec in zip(search_rows, lean):
+        for (desc, _sl, got_rel, skipped, same_i, exp, visited, rerun), lspec in zip(search_rows, lean):
             sr.evaluations += 1
             problems = []
             if got_rel != exp:
@@ -159,6 +169,9 @@ def run(ck: Check) -> int:
                 problems.append(f'get_skipped()={skipped} but visited-returned={visited - len(got_rel)}')
             if not same_i:
                 problems.append('imatch() differs from match()')
+            if rerun is not None:
+                problems.append(f'the same object run again ({rerun[0]}): same results={rerun[1]}, get_skipped()={rerun[2]} '
+                                f'(first run {skipped})')
             if len(set(got_rel)) != len(got_rel):
                 problems.append('a file was returned twice')
             if lspec is not None:
